@@ -1,7 +1,7 @@
 (* C04 — exported theorems only: each is closed by [exact] and followed by Print Assumptions. *)
 From Coq Require Import List ZArith Bool.
-From Verif Require Import Lib.Interleave.
-From Verif Require Import C04.Model C04.Spec C04.Proofs C04.Proofs_state C04.Proofs_decl C04.Proofs_rec C04.Proofs_main C04.Proofs_more.
+From Verif Require Import Lib.Interleave Lib.InterleaveX.
+From Verif Require Import C04.Model C04.Spec C04.Proofs C04.Proofs_state C04.Proofs_decl C04.Proofs_rec C04.Proofs_main C04.Proofs_more C04.Sections C04.Proofs_conc.
 Import ListNotations.
 Open Scope Z_scope.
 
@@ -68,6 +68,42 @@ Theorem c04_partition_sections : forall (ts : list (list sec)) (l : list sec) (x
     gwpart (fst (Interleave.exec sec_step (x0, false) pre)).
 Proof. exact sections_interleaving. Qed.
 Print Assumptions c04_partition_sections.
+
+(* concurrent informer goroutines (PodGroup informer, Pod informer, Reservation informer), handlers
+   decomposed into their lock sections (get-or-create of the cache entry under the cache lock;
+   tryInitByPodConfig / tryInitByPodGroup / setChild under the gang lock). For event threads without delete
+   events in which every section that updates a gang comes after a get-or-create of that gang in the same
+   thread, and the PodGroup sections of one gang all sit in one thread: ALL interleavings of the sections
+   leave every gang the same (declaration equal, member sets equal as sets) ... *)
+Theorem c04_sections_confluent : forall h (tes : list (list op)) l1 l2,
+  let ts := map (flat_map (secs_of h)) tes in
+  Forall (fun t => guardedb [] t = true) ts ->
+  (forall g, busy (map (filter (is_initpg g)) ts) <= 1)%nat ->
+  interleaving ts l1 -> interleaving ts l2 ->
+  forall g, decl_opt_eqv (assocZ g (run_secs l1 [])) (assocZ g (run_secs l2 [])).
+Proof. exact sections_confluent. Qed.
+Print Assumptions c04_sections_confluent.
+
+(* ... namely as the declaration tracker of clause 8 says for any handler-atomic order of the events *)
+Theorem c04_concurrent_informers_confluent : forall h (tes : list (list op)) l le,
+  let ts := map (flat_map (secs_of h)) tes in
+  Forall (fun t => guardedb [] t = true) ts ->
+  (forall g, busy (map (filter (is_initpg g)) ts) <= 1)%nat ->
+  Forall (Forall (fun o => is_delete o = false)) tes ->
+  interleaving ts l -> interleaving tes le ->
+  forall g, decl_opt_eqv (assocZ g (run_secs l [])) (assocZ g (fold_left (decl_step h) le [])).
+Proof. exact concurrent_informers_confluent. Qed.
+Print Assumptions c04_concurrent_informers_confluent.
+
+(* the stream "race" (no hypothesis left): for every history, the monotone part split over the three
+   informer goroutines satisfies the hypotheses above, so the figures the harness projects at quiescence
+   are, for every interleaving of the lock sections, the ones [race_figs] computes in history order *)
+Theorem c04_race_figures_interleaving_independent : forall h ops l,
+  let evs := mono_ops ops in
+  interleaving (map (flat_map (secs_of h)) (race_threads evs)) l ->
+  forall g, decl_opt_eqv (assocZ g (run_secs l [])) (assocZ g (fold_left (decl_step h) evs [])).
+Proof. exact race_figures_interleaving_independent. Qed.
+Print Assumptions c04_race_figures_interleaving_independent.
 
 (* Permit returns Success exactly when every gang of the pod's group exists and has its minimum
    number of members holding resources; otherwise it returns Wait (any state) *)
@@ -170,3 +206,15 @@ Example c04_resubmitted_group_unsatisfied_example :
   /\ option_map (fun o => (o_res (fst o), option_map v_sat (vget (snd o) 1), sv_recs (snd o))) (nth_error l 17)
      = Some (res_wait, Some false, [([1], false); ([1; 2], false)]).
 Proof. exact resubmitted_group_unsatisfied. Qed.
+
+(* why get-or-create must be ONE section: a creator that stores without looking again (lookup under a read
+   lock, store under the write lock) drops the member another goroutine added in between *)
+Example c04_nonatomic_create_loses_member_example :
+  let h := mkHdr 1 [(1, true)] [dflt_cfg] in
+  let c := mkCfg 1 0 2 [] in
+  let atomic := run_secs [AEnsure 1; AChild 1 0; AEnsure 1; AInitPg 1 c] [] in
+  let split := run_secs [AInitPg 1 c] (overwrite 1 (run_secs [AEnsure 1; AChild 1 0] [])) in
+  option_map d_children (assocZ 1 atomic) = Some [0]
+  /\ option_map d_children (assocZ 1 split) = Some []
+  /\ option_map d_children (assocZ 1 (fold_left (decl_step h) [PodAdd 0 false; PGAdd 1 c] [])) = Some [0].
+Proof. exact nonatomic_create_loses_member. Qed.
